@@ -967,7 +967,7 @@ ol, ul { padding-left: 2em; }
             ODF: roman, swiss, modern, decorative, script, system
         """
         name = attrs[(STYLENS,"name")]
-        family = attrs[(SVGNS,"font-family")]
+        family = attrs.get( (SVGNS,"font-family"), name)
         generic = attrs.get( (STYLENS,'font-family-generic'),"" )
         self.cs.save_font(name, family, generic)
 
